@@ -3,7 +3,7 @@
    twin runs differing only by rejected frames are therefore in equal states at every step, for all histories.
    Whether a frame counts as rejected is spec_accepts (Spec/L2Frame.v reference MIC + freshness rule), not the model. *)
 From Coq Require Import NArith ZArith List Bool.
-From LoraV Require Import Base.Bytes Model.Frame Spec.L2Frame Model.Region Model.Mac Proofs.SessionProofs Model.AsyncDev Model.NbDev Proofs.FrontEndReject.
+From LoraV Require Import Base.Bytes Model.Frame Spec.L2Frame Model.Region Model.Mac Proofs.SessionProofs Model.AsyncDev Model.NbDev Proofs.FrontEndReject Crypto.CMAC Proofs.FrontEndExamples.
 Import ListNotations.
 Local Open Scope N_scope.
 
@@ -59,3 +59,7 @@ Section C07.
      (NWaitRx join rx1 rx2 w rf, m, {| n_calls := n_calls e + 1; n_fault := n_fault e; n_trace := NcPhy :: n_trace e |}, NrNoUpdate)).
   Proof. exact (nb_rejected_frame_keeps_the_window_open enc mac_fn). Qed.
 End C07.
+
+(* non-vacuity: a joined device (concrete AES-128 / CMAC) and a frame it rejects in the sense of mac_rejects *)
+Example C07_rejection_premise_met : mac_rejects aes_enc aes_mac ex_mac [0x60; 1; 2; 3] 51.
+Proof. exact ex_rejects_garbage. Qed.
